@@ -36,11 +36,15 @@ typedef struct {
 static int P_C06, P_C07, P_C11;
 static const vf_name *Q;       /* query alphabet (C07) */
 static int NQ;
+#define LNAME "mmmmmmmmmmmmmmmmmmmmmmmmmmmmmmmmmmmmmmmmmmmmmmmmmmmmmmmmmmmmmmmmmmmmmmmmmmmmmmmmmmmmmmmmmmmmmmmmmmmmmmmmmmmmmmmmmmmmmmmmmmmmmmmmmmmmmmmm"
+/* 12 names in strictly ascending Binson order: empty, NUL, prefixes, two names that differ only AFTER an embedded
+ * NUL, a 128-byte name (2-byte length prefix), bytes 0x7f / 0x80 / 0xff */
 static const vf_name names_trap[] = {
     { (const uint8_t *) "", 0 }, { (const uint8_t *) "\0", 1 }, { (const uint8_t *) "a", 1 }, { (const uint8_t *) "a\0", 2 },
-    { (const uint8_t *) "ab", 2 }, { (const uint8_t *) "b", 1 }, { (const uint8_t *) "\x7f", 1 }, { (const uint8_t *) "\x80", 1 },
-    { (const uint8_t *) "\xff", 1 }
+    { (const uint8_t *) "a\0b", 3 }, { (const uint8_t *) "a\0c", 3 }, { (const uint8_t *) "ab", 2 }, { (const uint8_t *) "b", 1 },
+    { (const uint8_t *) LNAME, 128 }, { (const uint8_t *) "\x7f", 1 }, { (const uint8_t *) "\x80", 1 }, { (const uint8_t *) "\xff", 1 }
 };
+#define NTRAP 12
 
 /* ops: 'n' next, 'O' 'A' enter, 'o' 'a' leave, 'r' get_raw, 'w' to_writer,
  * 0x80|variant<<4|q : lookups (variant 0 field_with_length, 1 field (strlen),
@@ -56,12 +60,14 @@ static const char *op_name(op_t op, char *tmp)
     case 'a': return "leave_array";
     case 'r': return "get_raw";
     case 'w': return "to_writer";
+    case 'R': return "reset";
+    case 'V': return "verify";
     default: {
         static const char *const v[] = { "field_with_length", "field", "field_ensure_INTEGER", "field_ensure_OBJECT" };
         int q = op & 15;
-        char hx[64];
-        vf_hex(hx, Q[q].p, Q[q].len);
-        sprintf(tmp, "%s(%s)", v[(op >> 4) & 3], hx);
+        char hx[300];
+        vf_hex(hx, Q[q].p, Q[q].len > 8 ? 8 : Q[q].len);
+        sprintf(tmp, "%s(%s%s)", v[(op >> 4) & 3], hx, Q[q].len > 8 ? "..128bytes" : "");
         return tmp;
     }
     }
@@ -130,6 +136,7 @@ static void op_query(op_t op, const uint8_t **q, size_t *ql)
 /* model: is op enabled in m (protocol of the property statement)? */
 static bool m_enabled(const mstate *m, op_t op)
 {
+    if (op == 'R' || op == 'V') return !m->dead && !(m->sp == 0 && !m->done);   /* a restart from anywhere but the start itself */
     if (m->done || m->dead) return false;
     int top = m->sp ? m->fr[m->sp - 1] : -1;
     switch (op) {
@@ -159,6 +166,11 @@ static void m_step(mstate *m, op_t op, expect *e)
     int8_t was_after_field = m->after_field;
     (void) was_after_field;
     bool keepflags = false;
+    if (op == 'R' || op == 'V') {       /* back to the start: the root is pending again */
+        memset(m, 0, sizeof *m);
+        m->pending = 0; m->cur = -1;
+        return;
+    }
     switch (op) {
     case 'n': {
         const vf_node *c = &D->n[m->fr[t]];
@@ -303,6 +315,7 @@ static bool do_op(mstate *m, op_t op, mismatch *mm, bool counting)
     size_t d0 = binson_parser_get_depth(L.p);
     size_t used0 = L.p->buffer_used;
     vf_snap img0;
+    memset(&img0, 0, sizeof img0);
     if (e.nonc) vf_snap_save(&img0, &L);
     cb_count = 0; cb_maxused = used0;
     L.p->cb = count_cb; L.p->cb_context = NULL;
@@ -321,6 +334,8 @@ static bool do_op(mstate *m, op_t op, mismatch *mm, bool counting)
     case 'o': r = binson_parser_leave_object(L.p); break;
     case 'a': r = binson_parser_leave_array(L.p); break;
     case 'r': r = binson_parser_get_raw(L.p, &raw); break;
+    case 'R': used0 = 0; cb_maxused = 0; r = binson_parser_reset(L.p); break;
+    case 'V': used0 = 0; cb_maxused = 0; r = binson_parser_verify(L.p); break;
     case 'w': {
         size_t span = e.rawnode >= 0 ? (size_t) (D->n[e.rawnode].end - D->n[e.rawnode].start) : 0;
         wcap = 3 + span;
@@ -374,6 +389,7 @@ static bool do_op(mstate *m, op_t op, mismatch *mm, bool counting)
     if (ok) {
         long dd = (long) binson_parser_get_depth(L.p) - (long) d0;
         long want = op == 'O' ? 1 : (op == 'o' ? -1 : 0);
+        if (op == 'R' || op == 'V') { dd = (long) binson_parser_get_depth(L.p); want = D->root_kind == VK_ARR ? 1 : 0; }
         if (dd != want) {
             snprintf(mm->why, sizeof mm->why, "get_depth moved by %ld, expected %ld", dd, want);
             snprintf(mm->sigctx, sizeof mm->sigctx, "depth");
@@ -646,7 +662,7 @@ static void worker(int w, int W, uint64_t start)
         memset(&g, 0, sizeof g);
         g.root_kind = root;
         g.max_tokens = N_TOK;
-        if (P_C07) { g.classes = cls_c07; g.nclasses = 3; g.names = names_trap; g.nnames = 9; g.max_obj_depth = 3; }
+        if (P_C07) { g.classes = cls_c07; g.nclasses = 3; g.names = names_trap; g.nnames = NTRAP; g.max_obj_depth = 3; }
         else { g.classes = cls_nav; g.nclasses = 4; g.names = vf_names_abc; g.nnames = 3; g.max_obj_depth = 6; }
         g.cb = on_doc;
         vf_gen_run(&g);
@@ -695,11 +711,12 @@ int main(int argc, char **argv)
     vf_main_init(argc, argv, "nav", ctr_names);
     P_C06 = !strcmp(vf_g.prop, "C06"); P_C07 = !strcmp(vf_g.prop, "C07"); P_C11 = !strcmp(vf_g.prop, "C11");
     if (!P_C06 && !P_C07 && !P_C11) vf_die("nav decides C06, C07, C11");
-    Q = names_trap; NQ = 9;
+    Q = names_trap; NQ = NTRAP;
     NOPS = 0;
     static const char base6[] = "nOAoar";
     for (int i = 0; i < 6; i++) OPS[NOPS++] = (op_t) base6[i];
     if (P_C11) OPS[NOPS++] = 'w';
+    if (P_C06) { OPS[NOPS++] = 'R'; OPS[NOPS++] = 'V'; }
     if (P_C07) for (int v = 0; v < 4; v++) for (int q = 0; q < NQ; q++) OPS[NOPS++] = (op_t) (0x80 | (v << 4) | q);
     const char *e = getenv("VERIF_N");
     if (P_C07) N_TOK = vf_g.thorough ? 4 : 3; else N_TOK = vf_g.thorough ? 7 : 5;
@@ -710,7 +727,7 @@ int main(int argc, char **argv)
     snprintf(bound, sizeof bound,
              "all valid object- and array-rooted documents with <= %d value tokens over leaves {%s} and containers {object,array}, names %s; "
              "max_depth = needed and needed+1; per document: fixpoint over ALL protocol-following call sequences (any length) of %d operations",
-             N_TOK, P_C07 ? "int" : "int,string", P_C07 ? "9 order-trap names (empty, NUL, prefix, 0x7f/0x80/0xff)" : "a<b<c", NOPS);
+             N_TOK, P_C07 ? "int" : "int,string", P_C07 ? "12 order-trap names (empty, NUL, prefixes, a pair differing only after an embedded NUL, a 128-byte name, 0x7f/0x80/0xff)" : "a<b<c", NOPS);
     snprintf(rule, sizeof rule,
              "grammar-directed exhaustive enumeration of documents; breadth-first search over (byte image of parser+state[], reference cursor state), "
              "deduplicated by exact comparison; each transition is one real API call checked against the reference cursor");
